@@ -73,11 +73,10 @@ pub struct WorkerArgs {
 static CUR_INDEX: AtomicU64 = AtomicU64::new(u64::MAX);
 static CUR_SINCE_MS: AtomicU64 = AtomicU64::new(0);
 
+/// monotonic milliseconds since the first call (a wall-clock step must not look like a hang)
 fn now_ms() -> u64 {
-    std::time::SystemTime::now()
-        .duration_since(std::time::UNIX_EPOCH)
-        .map(|d| d.as_millis() as u64)
-        .unwrap_or(0)
+    static START: std::sync::OnceLock<std::time::Instant> = std::sync::OnceLock::new();
+    START.get_or_init(std::time::Instant::now).elapsed().as_millis() as u64 + 1
 }
 
 impl WorkerArgs {
